@@ -17,7 +17,7 @@ from __future__ import annotations
 
 import json
 
-from harness import docs, tlc, vocab
+from harness import docgen, docs, tlc, vocab
 from harness.core import Check
 from harness.par import pmap
 
@@ -192,6 +192,7 @@ def run(tier: str) -> int:
     chk.notes["family_S"] = stats
     run_family_t(chk, tier)
     run_family_p(chk, tier)
+    run_family_v(chk, tier, sorted(seen))
     for id_ in list(metas)[:: max(1, len(metas) // 4)][:4]:
         chk.sample({k: metas[id_][k] for k in ("fam", "toks", "src", "opts", "out")})
     chk.exhaustive = True
@@ -247,6 +248,71 @@ def run_family_p(chk: Check, tier: str) -> None:
             chk.violation("SameDocument(marko)" if dm else "SameDocument(markdown-it)",
                           dict(m, first_diff_marko=dm, first_diff_mdit=di, marko_in=t["tm_in"][max(0, dm - 2): dm + 2], marko_out=t["tm_out"][max(0, dm - 2): dm + 2]))
     chk.notes["family_P"] = dict(pairs=len(traces), failing=bad)
+
+
+def variants(toks):
+    """derived documents outside the model's alphabet: ordered lists, alerts, footnote definitions (verdict only, no machine)"""
+    out = []
+    if any(t in ("Lt(", "Ll(") for t in toks):
+        out.append(tuple({"Lt(": "Ot(", "Ll(": "Ol("}.get(t, t) for t in toks))
+    if "Q(" in toks:
+        i = toks.index("Q(")
+        out.append(tuple(toks[:i]) + ("A(",) + tuple(toks[i + 1:]))
+    if len(toks) <= 6 and toks[0] in ("P", "C", "Lt(", "Ll(", "Q("):
+        out.append(("F(",) + tuple(toks) + (")",))
+    return out
+
+
+def eval_v(job):
+    toks, opts = job
+    x = docgen.src(list(toks))
+    if "F(" in toks:
+        x = "ref[^1]\n\n" + x
+    r = docs.eval_text(x, opts)
+    r.update(toks=list(toks), src=x, opts=opts)
+    r.pop("mdit_tree_in", None)
+    return r
+
+
+def run_family_v(chk: Check, tier: str, keys) -> None:
+    jobs = []
+    seen = set()
+    for key in keys:
+        for v in variants(list(key)):
+            if v not in seen:
+                seen.add(v)
+                jobs.append((v, OPTS_S[0]))
+    if tier == "quick":
+        jobs = [j for k, j in enumerate(jobs) if (k + chk.seed) % 3 == 0]
+    traces, metas = [], {}
+    for tid, (job, r) in enumerate(zip(jobs, pmap(eval_v, jobs, chunksize=100)), 1):
+        chk.evaluations += 1
+        if "exc" in r:
+            chk.violation("NoException", dict(src=r["src"], opts=r["opts"], exc=r["exc"]))
+            continue
+        traces.append(docs.trace_of(tid, "V", r))
+        metas[tid] = dict(fam="S+", toks=r["toks"], src=r["src"], opts=r["opts"], out=r["out1"])
+        chk.nontriv(("V", tuple(r["toks"])))
+    reports, gen, dist = tlc.validate_traces("DocTrace", traces, cfg=docs.DOC_TRACE_CFG, timeout=3000)
+    chk.states += dist
+    chk.transitions += gen
+    chk.traces += len(traces)
+    stats = dict(docs=len(traces), failing=0, D31=0)
+    for t in traces:
+        _, id_, _acc, dm, di, _idem, _rt, _pfx, _hz = reports[t["id"]]
+        if dm or di:
+            stats["failing"] += 1
+            m = metas[id_]
+            a, b = t["tm_in"], t["tm_out"]
+            only_loosened = len(a) == len(b) and all(x == y or (x.startswith("list:") and x.replace(":tight(", ":loose(") == y) for x, y in zip(a, b))
+            base = [{"Ot(": "Lt(", "Ol(": "Ll(", "A(": "Q(", "F(": "I("}.get(q, q) for q in m["toks"]]
+            if only_loosened and docs.heading_in_tight_item(base) and "D31" in chk.open_findings:
+                chk.known_finding("D31", m)
+                stats["D31"] += 1
+                continue
+            chk.violation("SameDocument(marko)" if dm else "SameDocument(markdown-it)",
+                          dict(m, first_diff_marko=dm, marko_in=a[max(0, dm - 2): dm + 2], marko_out=b[max(0, dm - 2): dm + 2]))
+    chk.notes["family_S_plus"] = stats
 
 
 def run_family_t(chk: Check, tier: str) -> None:
